@@ -1210,6 +1210,14 @@ class Intrinsic_Type_Spec(WORDClsBase):  # R403
             (pattern.abs_double_precision_name, None),
             ("BYTE", None),
         ]:
+            if (
+                cls is Kind_Selector
+                and string[: len(w)].upper() == w
+                and len(string[len(w) :].strip()) == 1
+            ):
+                # A single character cannot be a kind selector (and
+                # Kind_Selector.match() insists on at least two).
+                return None
             try:
                 obj = WORDClsBase.match(w, cls, string)
             except NoMatchError:
